@@ -431,6 +431,16 @@ def move_everywhere(h, cmds, kind, hi):
     return res
 
 
+def move_chain_everywhere(h, cmds, hi):
+    """one execution per position k: move construction at k, then the moved-from object is assigned to (mz) directly
+    or two commands later, and once more back: chains through moved-from objects"""
+    res = []
+    for k in range(len(cmds) + 1):
+        res.append((h, cmds[:k] + ["mv %d" % hi, "mz %d" % hi] + cmds[k:]))
+        res.append((h, cmds[:k] + ["mv %d" % hi] + cmds[k:k + 2] + ["mz %d" % hi] + cmds[k + 2:k + 4] + ["mz %d" % hi] + cmds[k + 4:]))
+    return res
+
+
 def fail_everywhere(h, cmds, maxk):
     """one execution per upstream call position k: the k-th upstream allocation fails.
     position 0 of the script is before construction, so the constructor's own block request is
